@@ -287,25 +287,46 @@ def newStruct (s : State) (self : Nat) (f : Frame) (idk v : Nat) : State × Nat 
     (setSMemo { setSlot s self (some { gen := s.nextGen, k := idk, v := v, fca := f.ca, dur := f.dur, upd := s.cur })
                 with nextGen := s.nextGen + 1 } self none, s.nextGen)
 
+/-- the memo `specify` installs: `Memo::new(Some(value), revision, QueryRevisions { changed_at,
+    durability, origin: Assigned(active_query_key), .. })` -/
+def assignedMemo (cur ca dur c v : Nat) : Memo :=
+  { value := ⟨v, none⟩, hgen := none, va := cur, ca := ca, dur := dur, deepAt := cur,
+    origin := some c, ts := none, obs := [] }
+
+-- src/function/specify.rs: fn specify_and_record, second half: new `Assigned` memo with the
+-- creator's stamp so far, backdated against the old memo, inserted; output edge recorded
+def installAssigned (s : State) (f : Frame) (c v : Nat) : State × Frame :=
+  let b := backdate (s.smemos c) true ⟨v, none⟩ none f.ca f.dur s.cur
+  (setSMemo (failIf s b.2 .backdateViolation) c (some (assignedMemo s.cur b.1 f.dur c v)), f.addOut c v)
+
 -- src/function/specify.rs: fn specify_and_record (executing query `self`, key = struct of `c`)
 def specifyAndRecord (s : State) (self : Option Nat) (f : Frame) (c v : Nat) : State × Frame :=
-  if ¬ (self = some c ∧ f.ts.isSome) then (fail s .specifyForeign, f)
-  else
-    let old := s.smemos c
-    let install (f' : Frame) : State × Frame :=
-      let b := backdate old true ⟨v, none⟩ none f.ca f.dur s.cur
-      (setSMemo (failIf s b.2 .backdateViolation) c
-        (some { value := ⟨v, none⟩, hgen := none, va := s.cur, ca := b.1, dur := f.dur, deepAt := s.cur,
-                origin := some c, ts := none, obs := [] }), f'.addOut c v)
-    match old with
+  if self = some c ∧ f.ts.isSome = true then
+    match s.smemos c with
     | some o =>
       if o.va = s.cur then
         match o.origin with
         | none => (s, f)                      -- a value produced by another query wins this revision
-        | some _ =>
-          if f.hasOut c then (fail s .specifyTwice, f) else install f
-      else install f
-    | none => install f
+        | some _ => if f.hasOut c = true then (fail s .specifyTwice, f) else installAssigned s f c v
+      else installAssigned s f c v
+    | none => installAssigned s f c v
+  else (fail s .specifyForeign, f)
+
+-- src/tracked_struct.rs: fn untracked_field (read lock, no dependency)
+def identStep (s : State) (c : Nat) : State × Nat :=
+  match s.slots c with
+  | some sl => (lockSlot s c sl, sl.k)
+  | none => (fail s .staleHandle, 0)
+
+-- `Ts::new(db, idk, v)` in the executing query: the new state, frame and the handle value
+def createStep (s : State) (self : Option Nat) (f : Frame) (idk v : Nat) : State × Frame × Val :=
+  match self with
+  | some me =>
+    if f.ts.isSome then (fail s .secondStruct, f, ⟨v, none⟩)
+    else
+      let r := newStruct s me f idk v
+      (r.1, { f with ts := some r.2 }, ⟨v, some me⟩)
+  | none => (fail s .secondStruct, f, ⟨v, none⟩)
 
 -- src/function/execute.rs: fn execute_query (the user function running against the database)
 def runBody (fe fs : FetchFn) (self : Option Nat) : Body → State → Frame → State × Frame × Val
@@ -314,15 +335,11 @@ def runBody (fe fs : FetchFn) (self : Option Nat) : Body → State → Frame →
     let r := readDep fe fs s d
     runBody fe fs self (k r.2.val) r.1 (f.push d r.2)
   | .ident c k, s, f =>
-    match s.slots c with
-    | some sl => runBody fe fs self (k sl.k) (lockSlot s c sl) f
-    | none => runBody fe fs self (k 0) (fail s .staleHandle) f
+    let r := identStep s c
+    runBody fe fs self (k r.2) r.1 f
   | .create idk v k, s, f =>
-    match self, f.ts with
-    | some me, none =>
-      let r := newStruct s me f idk v
-      runBody fe fs self (k ⟨v, some me⟩) r.1 { f with ts := some r.2 }
-    | _, _ => runBody fe fs self (k ⟨v, none⟩) (fail s .secondStruct) f
+    let r := createStep s self f idk v
+    runBody fe fs self (k r.2.2) r.1 r.2.1
   | .specify c v k, s, f =>
     let r := specifyAndRecord s self f c v
     runBody fe fs self k r.1 r.2
@@ -341,14 +358,18 @@ def noFetch : FetchFn := fun s _ => (s, Res.dflt)
 def specBody (SB : Nat → Nat → Body) (c : Nat) : Body :=
   .ident c fun k => .read (.field c) fun x => SB k x.n
 
+-- src/function/execute.rs: fn execute (after the body returned): backdate, insert the memo
+def installSpec (s1 : State) (c : Nat) (old : Option Memo) (f : Frame) (v : Val) : State × Res :=
+  let b := backdate old false v none f.ca f.dur s1.cur
+  (setSMemo (failIf s1 b.2 .backdateViolation) c
+    (some { value := v, hgen := none, va := s1.cur, ca := b.1, dur := f.dur, deepAt := s1.cur,
+            origin := none, ts := none, obs := finalObs f.dur f.obs }),
+   ⟨v, b.1, f.dur⟩)
+
 -- src/function/execute.rs: fn execute, for `spec(struct of c)`
 def executeSpec (SB : Nat → Nat → Body) (s : State) (c : Nat) (old : Option Memo) : State × Res :=
   let r := runBody noFetch noFetch none (specBody SB c) (emit s (.execS c (genOf s c))) (frame0 none)
-  let b := backdate old false r.2.2 none r.2.1.ca r.2.1.dur r.1.cur
-  (setSMemo (failIf r.1 b.2 .backdateViolation) c
-    (some { value := r.2.2, hgen := none, va := r.1.cur, ca := b.1, dur := r.2.1.dur, deepAt := r.1.cur,
-            origin := none, ts := none, obs := finalObs r.2.1.dur r.2.1.obs }),
-   ⟨r.2.2, b.1, r.2.1.dur⟩)
+  installSpec r.1 c old r.2.1 r.2.2
 
 /-- `maybe_changed_after` of the edges a `spec` memo can have (tracked field, input fields) -/
 def depChangedLeaf (s : State) (d : Dep) (rev : Nat) : State × Bool :=
@@ -383,7 +404,7 @@ def fetchSpec (SB : Nat → Nat → Body) (s0 : State) (c : Nat) : State × Res 
       | none =>
         let r := deepEdgesLeaf m.obs s m.va
         if r.2 then
-          (setSMemo (emit r.1 (.validS c (genOf s c))) c (some { m with va := s.cur, deepAt := s.cur }), hit m)
+          (setSMemo (emit r.1 (.validS c (genOf s c))) c (some { m with va := r.1.cur, deepAt := r.1.cur }), hit m)
         else executeSpec SB r.1 c (some m)
 
 -- src/function/maybe_changed_after.rs: fn maybe_changed_after for `spec(struct of c)`
@@ -462,13 +483,15 @@ def diffOutputs (s : State) (q : Nat) (old : Memo) (f : Frame) (oldGen : Nat) : 
   let oldOut := old.obs.any fun o => o.recd && o.out && decide (o.dep = .spec q)
   if oldOut ∧ ¬ f.hasOut q then emit s1 (.staleS q q oldGen) else s1
 
--- src/function/execute.rs: fn execute (CycleRecoveryStrategy::Panic arm), node `q`
-def execute (fe : FetchFn) (P : Prog) (s : State) (q : Nat) (old : Option Memo) : State × Res :=
-  let seed := match old with | some o => o.ts | none => none
-  let r := runBody fe (fetchSpec P.spec) (some q) (P.node q) (emit s (.exec q)) (frame0 seed)
-  let s1 := r.1
-  let f := r.2.1
-  let v := r.2.2
+/-- `tracked_struct_ids` of the old memo seed the new frame -/
+def oldSeed (old : Option Memo) : Option Nat :=
+  match old with
+  | some o => o.ts
+  | none => none
+
+-- src/function/execute.rs: fn execute (after the body returned): backdate_if_appropriate,
+-- diff_outputs, discard_edges_if_never_change, insert_memo
+def installNode (s1 : State) (q : Nat) (old : Option Memo) (f : Frame) (v : Val) : State × Res :=
   let hg := hgenOf s1 v
   let b := backdate old false v hg f.ca f.dur s1.cur
   let s2 := failIf s1 b.2 .backdateViolation
@@ -478,6 +501,11 @@ def execute (fe : FetchFn) (P : Prog) (s : State) (q : Nat) (old : Option Memo) 
   (setMemo s3 q { value := v, hgen := hg, va := s1.cur, ca := b.1, dur := f.dur, deepAt := s1.cur,
                   origin := none, ts := f.ts, obs := finalObs f.dur f.obs },
    ⟨v, b.1, f.dur⟩)
+
+-- src/function/execute.rs: fn execute (CycleRecoveryStrategy::Panic arm), node `q`
+def execute (fe : FetchFn) (P : Prog) (s : State) (q : Nat) (old : Option Memo) : State × Res :=
+  let r := runBody fe (fetchSpec P.spec) (some q) (P.node q) (emit s (.exec q)) (frame0 (oldSeed old))
+  installNode r.1 q old r.2.1 r.2.2
 
 -- src/function/memo.rs: fn mark_as_verified
 def markVerified (s : State) (q : Nat) (m : Memo) : State :=
@@ -587,6 +615,114 @@ def outputs (P : Prog) : State → List Op → List Val
   | s, .set i v nd :: ops => outputs P (write s i v nd) ops
   | s, .synth d :: ops => outputs P (synth s d) ops
 
+
+/-! ### Reference semantics (from scratch: no memo table, no revisions, no stamps)
+
+  A from-scratch run of node `q` yields its value, the struct it creates (identity, tracked field)
+  and the value it specifies for `spec` on that struct.  `spec(struct of c)` means: the value the
+  creator's from-scratch run specifies, else the body of `spec` on the struct's fields. -/
+
+structure SemRes where
+  val : Val
+  /-- the struct created: (identity field, tracked field) -/
+  ts : Option (Nat × Nat)
+  /-- the value specified for `spec(struct)` (the first `specify` of the run) -/
+  sp : Option Nat
+deriving DecidableEq, Repr
+
+def SemRes.dflt : SemRes := ⟨⟨0, none⟩, none, none⟩
+
+/-- dependencies of a `spec` body: inputs only -/
+def inpDep (inp : Nat → Inp) : Dep → Val
+  | .inp i => ⟨(inp i).val, none⟩
+  | _ => ⟨0, none⟩
+
+/-- Run a body against semantic values of its dependencies (`sd`) and identity fields (`sk`).
+    The run threads the struct created so far (`ts`), the value specified so far (`sp`) and the
+    value of `spec(own struct)` computed so far by a request of the creator itself (`cv`): such a
+    computed value is kept — a later `specify` in the same run is ignored.  `sb k v` is the value of
+    the body of `spec` on a struct with fields `(k, v)`. -/
+def ownRead (self : Nat) (sb : Nat → Nat → Val) (d : Dep) (ts : Option (Nat × Nat)) (sp : Option Nat)
+    (cv : Option Val) (other : Val) : Val × Option Val :=
+  if d = .spec self then
+    match sp, cv with
+    | some v, _ => (⟨v, none⟩, cv)
+    | none, some x => (x, cv)
+    | none, none =>
+      let x := match ts with | some (i, v) => sb i v | none => ⟨0, none⟩
+      (x, some x)
+  else if d = .field self then (⟨match ts with | some (_, v) => v | none => 0, none⟩, cv)
+  else (other, cv)
+
+def ownIdent (self : Nat) (c : Nat) (ts : Option (Nat × Nat)) (other : Nat) : Nat :=
+  if c = self then (match ts with | some (i, _) => i | none => 0) else other
+
+/-- `specify` is ignored when a value is already specified or was computed by the creator itself -/
+def specNext (sp : Option Nat) (cv : Option Val) (v : Nat) : Option Nat :=
+  match sp, cv with
+  | none, none => some v
+  | _, _ => sp
+
+def evalX (self : Nat) (sd : Dep → Val) (sk : Nat → Nat) (sb : Nat → Nat → Val) :
+    Body → Option (Nat × Nat) → Option Nat → Option Val → SemRes
+  | .ret v, ts, sp, _ => ⟨v, ts, sp⟩
+  | .read d k, ts, sp, cv =>
+    evalX self sd sk sb (k (ownRead self sb d ts sp cv (sd d)).1) ts sp (ownRead self sb d ts sp cv (sd d)).2
+  | .ident c k, ts, sp, cv => evalX self sd sk sb (k (ownIdent self c ts (sk c))) ts sp cv
+  | .create idk v k, _, sp, cv => evalX self sd sk sb (k ⟨v, some self⟩) (some (idk, v)) sp cv
+  | .specify _ v k, ts, sp, cv => evalX self sd sk sb k ts (specNext sp cv v) cv
+
+/-- the value of the body of `spec` on a struct with fields `(k, v)` -/
+def specBodyVal (P : Prog) (inp : Nat → Inp) (k v : Nat) : Val :=
+  (evalX 0 (inpDep inp) (fun _ => 0) (fun _ _ => ⟨0, none⟩) (P.spec k v) none none none).val
+
+/-- the value of `spec(struct)` given the from-scratch result of the struct's creator -/
+def specVal (P : Prog) (inp : Nat → Inp) (r : SemRes) : Val :=
+  match r.sp, r.ts with
+  | some v, _ => ⟨v, none⟩
+  | none, some (k, v) => specBodyVal P inp k v
+  | none, none => ⟨0, none⟩
+
+def fieldVal (r : SemRes) : Val := ⟨match r.ts with | some (_, v) => v | none => 0, none⟩
+def identVal (r : SemRes) : Nat := match r.ts with | some (k, _) => k | none => 0
+
+def semDepOf (P : Prog) (inp : Nat → Inp) (lower : Nat → SemRes) : Dep → Val
+  | .inp i => ⟨(inp i).val, none⟩
+  | .qry q => (lower q).val
+  | .field c => fieldVal (lower c)
+  | .spec c => specVal P inp (lower c)
+
+def semAt (P : Prog) (inp : Nat → Inp) : Nat → Nat → SemRes
+  | 0, _ => SemRes.dflt
+  | r + 1, q =>
+    if q < r then semAt P inp r q
+    else if q = r then
+      evalX q (semDepOf P inp (semAt P inp r)) (fun c => identVal (semAt P inp r c)) (specBodyVal P inp)
+        (P.node q) none none none
+    else SemRes.dflt
+
+/-- the from-scratch result of node `q` -/
+def semRes (P : Prog) (inp : Nat → Inp) (q : Nat) : SemRes := semAt P inp (q + 1) q
+
+/-- the from-scratch value of node `q` -/
+def sem (P : Prog) (inp : Nat → Inp) (q : Nat) : Val := (semRes P inp q).val
+
+/-- the from-scratch value of `spec(struct of creator c)` -/
+def semSpec (P : Prog) (inp : Nat → Inp) (c : Nat) : Val := specVal P inp (semRes P inp c)
+
+/-- from-scratch oracle for histories: (value, durability) per input -/
+def refInp (env : Nat → Nat × Nat) : Nat → Inp := fun i => ⟨(env i).1, 0, (env i).2⟩
+
+def refWrite (env : Nat → Nat × Nat) (i v : Nat) (nd : Option Nat) : Nat → Nat × Nat :=
+  if (env i).2 ≥ 3 then env
+  else fun j => if j = i then (v, match nd with | some d => d | none => (env i).2) else env j
+
+def refOutputs (P : Prog) : (Nat → Nat × Nat) → List Op → List Val
+  | _, [] => []
+  | env, .get q :: ops => sem P (refInp env) q :: refOutputs P env ops
+  | env, .set i v nd :: ops => refOutputs P (refWrite env i v nd) ops
+  | env, .synth _ :: ops => refOutputs P env ops
+
 /-! ### The program language of the line protocol, compiled to `Body` by CPS -/
 
 inductive Expr where
@@ -683,6 +819,40 @@ def Expr.maxMk : Expr → Nat
   | .tv e => e.maxMk
   | .tk e => e.maxMk
   | .sp e => e.maxMk
+
+/-- does the expression contain a `mk`? -/
+def Expr.hasMk : Expr → Bool
+  | .const _ => false
+  | .inp _ => false
+  | .qry _ => false
+  | .add a b => a.hasMk || b.hasMk
+  | .min a b => a.hasMk || b.hasMk
+  | .max a b => a.hasMk || b.hasMk
+  | .ite c a b => c.hasMk || a.hasMk || b.hasMk
+  | .mk _ _ _ _ => true
+  | .tv e => e.hasMk
+  | .tk e => e.hasMk
+  | .sp e => e.hasMk
+
+/-- the query never reads its own struct: no `tv` / `tk` / `sp` over an expression with a `mk`
+    (the fragment of the integrated soundness theorem; `seq gen --profile spec` generates it) -/
+def Expr.ownFree : Expr → Bool
+  | .const _ => true
+  | .inp _ => true
+  | .qry _ => true
+  | .add a b => a.ownFree && b.ownFree
+  | .min a b => a.ownFree && b.ownFree
+  | .max a b => a.ownFree && b.ownFree
+  | .ite c a b => c.ownFree && a.ownFree && b.ownFree
+  | .mk _ v f s => v.ownFree && f.ownFree && s.ownFree
+  | .tv e => !e.hasMk && e.ownFree
+  | .tk e => !e.hasMk && e.ownFree
+  | .sp e => !e.hasMk && e.ownFree
+
+/-- `wfList` plus `ownFree` for every query -/
+def wfOwnFree : Nat → List Expr → Bool
+  | _, [] => true
+  | r, e :: es => e.callsBelow r && e.ownFree && wfOwnFree (r + 1) es
 
 def progOf (es : List Expr) (sb : SExpr) : Prog where
   node q := match es[q]? with
